@@ -371,7 +371,54 @@ class VisibilityFamily(NetworkFamily):
         return vg
 
 
-FAMILIES = {f.name: f for f in (NetworkFamily(), DirNetworkFamily(), InteractingFamily(), GeoNetworkFamily(),
+class SurrogatesFamily:
+    """Surrogates: the only state change is normalize_original_data (in place on the stored data).  Random
+    generators are observed through a deterministic functional of their result, or with a fixed seed."""
+    name = "surrogates"
+
+    def _data(self):
+        t = np.arange(16)
+        return np.array([2.0 + k + np.sin(t * 0.7 + k) * (1.0 + 0.5 * k) + 0.3 * np.cos(t * 1.9 + 2 * k)
+                         for k in range(3)])
+
+    def build(self, a):
+        from pyunicorn.timeseries import Surrogates
+        s = Surrogates(original_data=self._data(), silence_level=3)
+        if a["NORM"]:
+            s.normalize_original_data()
+        return s
+
+    def mutate(self, obj, m, v):
+        if m != "normalize_original_data":
+            raise ValueError(m)
+        obj.normalize_original_data()
+
+    def names(self, obj):
+        return []
+
+    def calls(self, obj, a):
+        def seeded(fn):
+            def run():
+                np.random.seed(11)
+                return fn()
+            return run
+        return [
+            ("original_data", lambda: obj.original_data),
+            ("original_data_fft~abs", lambda: np.abs(obj.original_data_fft())),
+            ("correlated_noise_surrogates~fft-amplitudes",
+             lambda: np.abs(np.fft.rfft(obj.correlated_noise_surrogates(), axis=1))[:, 1:-1]),
+            ("AAFT_surrogates~sorted", lambda: np.sort(obj.AAFT_surrogates(), axis=1)),
+            ("white_noise_surrogates~sorted", lambda: np.sort(obj.white_noise_surrogates(), axis=1)),
+            # the SAME embedding parameters at every observation (a stale embedding shows)
+            # (the twin walk draws from the C library's generator: only the shape is a function of the state;
+            #  the twins and the embedding it leaves behind are observed next - labels sort in this order)
+            ("twin_surrogates(2,1,0.6)~shape", lambda: np.array(obj.twin_surrogates(2, 1, 0.6, min_dist=2).shape)),
+            ("twins(0.6)~count", lambda: [len(t) for row in obj.twins(0.6, min_dist=2) for t in row]),
+            ("twins~embedding", lambda: obj.embedding),
+        ]
+
+
+FAMILIES = {f.name: f for f in (SurrogatesFamily(), NetworkFamily(), DirNetworkFamily(), InteractingFamily(), GeoNetworkFamily(),
                                 ResNetworkFamily(), RpFamily(), RnFamily(), CrpFamily(), JrpFamily(),
                                 JrnFamily(), ClimateFamily(), ClimateDataFamily(), VisibilityFamily())}
 
@@ -403,10 +450,13 @@ def apply_abs(a, m, v):
         a["WIN"] = v
     elif m == "set_global_window":
         a["WIN"] = 0
+    elif m == "normalize_original_data":
+        a["NORM"] = 1
     return a
 
 
 INIT = {
+    "surrogates": {"EMB": 0, "NORM": 0},
     "network": {"A": 1, "W": 0, "LA": 0}, "dirnetwork": {"A": 1, "W": 0, "LA": 0},
     "interacting": {"A": 1, "W": 0, "LA": 0}, "visibility": {"A": 1, "W": 0, "LA": 0},
     "geonetwork": {"A": 1, "W": 0, "LA": 0, "NWT": 1}, "resnetwork": {"R": 1},
